@@ -16,6 +16,7 @@
 use vcore::{Cfg, Check, Cx, Finding, Meta, SUB_SETUP, Tier, Value, Violation, json};
 
 mod dec;
+mod head;
 mod lit;
 mod ops;
 mod run;
@@ -24,6 +25,7 @@ mod run;
 enum Unit {
     Lit { fam: lit::Fam, start: u64, len: u64 },
     Ops { fam: ops::OpsFam, start: u64, len: u64 },
+    Head { start: u64, len: u64 },
 }
 
 fn unit_table(tier: Tier) -> Vec<Unit> {
@@ -49,6 +51,12 @@ fn unit_table(tier: Tier) -> Vec<Unit> {
             s += ch;
         }
     }
+    // operands that are if / match / block expressions at the start of a block
+    let mut s = 0;
+    while s < head::count() {
+        opsu.push(Unit::Head { start: s, len: head::CHUNK.min(head::count() - s) });
+        s += head::CHUNK;
+    }
     // simplest first: small literal families, operator sequences (short
     // ones first), then the large sweeps
     small.extend(opsu);
@@ -71,6 +79,7 @@ impl Check for C09 {
         let name = match u {
             Unit::Lit { fam, .. } => fam.name(),
             Unit::Ops { fam, .. } => fam.name(),
+            Unit::Head { .. } => "OpsHead".to_string(),
         };
         match u {
             Unit::Lit { fam, start, len } => {
@@ -88,6 +97,10 @@ impl Check for C09 {
                 cx.count(&format!("cases:{}", fam.name()), len);
                 ops::run(fam, start, len, cx);
             }
+            Unit::Head { start, len } => {
+                cx.count("cases:OpsHead", len);
+                head::run(start, len, cx);
+            }
         }
         cx.count(&format!("worker_ms:{name}"), t0.elapsed().as_millis() as u64);
     }
@@ -102,6 +115,7 @@ impl Check for C09 {
                 }
             }
             Unit::Ops { fam, start, .. } => ops::describe(fam, start, sub),
+            Unit::Head { .. } => head::describe(sub),
         }
     }
     fn matches(&self, f: &Finding, v: &Violation) -> bool {
@@ -132,6 +146,37 @@ impl Check for C09 {
                     && c["whitespace_or_nothing_after_hash_bang"] == true
                     && v.class == "rejected-documented"
             }
+            // `if c { 10 } else { 20 } - b` at the start of a block item: the
+            // if / match is cut off as a statement and `-b` becomes the value
+            "leading_if_match_then_minus" => {
+                c["kind"] == "operators-head"
+                    && (c["head"] == "if" || c["head"] == "match")
+                    && c["first_operator"] == "-"
+                    && v.class == "paren-mismatch"
+            }
+            // f"\x7b\x7b": two braces of which at least one is written as an
+            // escape are collapsed like `{{`
+            "fstring_escaped_brace_pair" => {
+                c["kind"] == "fstring"
+                    && c["escaped_brace_next_to_same_brace"] == true
+                    && v.class == "value-mismatch"
+            }
+            // CR LF line end inside a string / f-string (continuation or multi-line)
+            "crlf_line_end_in_literal" => {
+                ["string-continuation", "string-raw", "fstring"].contains(&c["kind"].as_str().unwrap_or(""))
+                    && c["crlf_line_end"] == true
+                    && v.class == "rejected-documented"
+                    && obs.contains("parse")
+            }
+            // `return 0xFF`: operand of return starting with a token that
+            // can_start_expression does not list
+            "return_operand_token_kind" => {
+                c["kind"] == "literal-position"
+                    && c["after_return"] == true
+                    && ["hex", "char", "fstring", "if", "match"].contains(&c["token_kind"].as_str().unwrap_or(""))
+                    && v.class == "rejected-documented"
+                    && obs.contains("parse")
+            }
             _ => false,
         }
     }
@@ -141,12 +186,15 @@ impl Check for C09 {
             .iter()
             .map(|f| json!({"family": f.name(), "cases": f.count(tier)}))
             .chain(ops::families(tier).iter().map(|f| json!({"family": f.name(), "cases": f.count()})))
+            .chain([json!({"family": "OpsHead (if / match / block as first operand at the start of a block, 1-2 operators, 3 contexts)", "cases": head::count()})])
             .collect();
         Meta {
             rule: "Literal part: every spelling of each bounded family (see bounds.families) is compiled alone as `fn f() -> T { spelling }` (parse + typecheck), accepted ones are compiled again together and f() is compared with the value decoded independently from the text; a spelling inside the documented grammar must be accepted, a documented keyword used as an identifier must be rejected, other spellings are judged only if accepted. A literal case is non-trivial when it was judged (value compared, or rejection demanded). Operator part: every sequence of k binary operators over the 13 (optionally with a unary operator on a non-empty subset of operands): a sequence with a comparison chain or an &&/|| mixture must fail to compile under the int/bool operand typings of bounds.forbidden_sequence_typings; any other sequence is compiled unparenthesised and fully parenthesised by the reference grouping for every operand typing that is well typed under that grouping and both are called on every input vector (int operands over {-3..3}; over {-2..2} when five and {-2,-1,1,3} when six operands are integers, which only happens for k >= 4; bool operands over both values) whose reference evaluation has no zero divisor; an operator program is non-trivial when its result differs between at least two input vectors.".into(),
             assumptions: vec![
                 "unicode-ident (the version in /repo/Cargo.lock) is the trusted reference for XID_Start / XID_Continue".into(),
-                "out-of-range integer literals, f32 literals outside the normal range, the rounding path of f32 literals, u64 literals above i64::MAX, octets with leading zeros and whether a prefix keeps host bits are left open by the documentation and not judged".into(),
+                "left open by the documentation, counted but not judged (audit items 1, 4, 6): (1) an integer literal outside the range of its type (`256u8`, `0x1FF` as u8, unsuffixed 3000000000 as i32, prefix length 264) is accepted and wraps - no documented value exists for such a spelling and the documentation does not say it is rejected (counter accepted_spelling_value_left_open_by_docs); (4) an f32 literal may be rounded once or via f64: both results are accepted, and f32/f64 literals outside the normal range are not judged; (6) u64 literals above i64::MAX and -9223372036854775808 are rejected although inside the documented range - the documentation does not promise a literal for every value (counter rejected_in_range_u64_above_i64_max)".into(),
+                "also not judged: octets with leading zeros, whether a prefix keeps host bits, `\\x80`-`\\xff`, underscores or suffixes on hex literals, a lone CR; an unparenthesised `if`/`match`/block operand followed by an operator is judged only where it compiles".into(),
+                "a CR LF pair is a newline: a string or f-string that spans lines, or a `\\` line continuation, in a script with CR LF line ends must be accepted; the value may keep or drop the CR".into(),
                 "integer division/remainder by zero is C10's finding: input vectors with a zero divisor under the reference grouping are skipped".into(),
             ],
             bounds: json!({"families": fams, "operators": ops::OPS,
